@@ -70,6 +70,15 @@ static sqfs_u64 g_total, g_own_end;	/* sum of the own sizes; own start + sum */
  * own well-formed history, or restates an obligation. */
 #define VERIF_CUT(c, name) do { VERIF_ASSERT(c, name); VERIF_ASSUME(c); } while (0)
 
+/* -DC01_NAMES (harness/C01/cases_extra_w4.py): the same facts seen from the
+ * packing-fidelity side - what the inode will say (block start = *out, the
+ * block sizes of the file) still describes bytes that are in the image */
+#ifdef C01_NAMES
+#define ALSO_C01(c, name) VERIF_ASSERT(c, name)
+#else
+#define ALSO_C01(c, name) ((void)0)
+#endif
+
 /* position of the earlier block that starts at `loc`, g_fs if none */
 static size_t block_at(sqfs_u64 loc)
 {
@@ -336,7 +345,13 @@ void harness(void)
 			VERIF_ASSERT(g_cmp_a == own && g_cmp_b == out &&
 				     g_cmp_sz == total,
 				     "C08.blk.match_needs_compare");
+			ALSO_C01(g_cmp_calls > 0 && g_cmp_ret == 0 && g_cmp_a == own &&
+				 g_cmp_b == out && g_cmp_sz == total,
+				 "C01.blocks.start_after_dedup");
 		}
+		if (ret == 0 && out == own)
+			ALSO_C01(g_trunc_calls == 0 && g_w.wr.blocks.used == used &&
+				 g_fsize == fsize0, "C01.blocks.start_after_dedup");
 
 		if (first_cand < fs) {
 			VERIF_ASSERT(g_cmp_calls > 0 &&
@@ -396,6 +411,12 @@ void harness(void)
 			}
 			VERIF_ASSERT(end == out + total && end <= g_trunc_sz,
 				     "C08.blk.truncate_safe");
+			/* C01: the run the inode now points at is still in the
+			 * history and inside the (shortened) file */
+			ALSO_C01(m < fs && nu >= m + count && out == g_blocks[m].offset &&
+				 end == out + total && end <= g_trunc_sz &&
+				 g_trunc_sz == END(nu - 1),
+				 "C01.blocks.dedup_keeps_data");
 			/* ... and so does every retained block (witness k) */
 			if (k < nu)
 				VERIF_ASSERT(END(k) <= g_trunc_sz,
